@@ -41,6 +41,23 @@ CHECKS['C01'] = dict(
    text='The whole decoder is an executable Coq model that is extracted and run against the implementation on every run over frames from libzstd (levels -5..22, window logs, flags, long-distance mode, flush patterns), from this crate\'s compressor and from a spec-directed builder (RLE/repeat tables, offset code 3 with zero literals, multi-byte sequence counts), with the original data, declared size and XXH64 as oracle. Theorems currently closed for this property are component-level (frame/block header meaning and code tables from C14, buffer refinement from C04, block invariants from C05); the end-to-end refinement decode = specification is NOT yet proved (partial).',
    note=MODEL_NOTE, category='translation_validation', design='8 C01')
 
+CHECKS['C07'] = dict(
+   technique='Coq proof that reset yields the same model state as first use (state equality, all decoding-relevant fields modelled); history/probe correspondence on reused vs fresh decoders',
+   text='Axiom-free theorems (coq/props/C07.v): the field-by-field reset of the decoder scratch state equals a new scratch state, hence initialising a used decoder and a fresh decoder for the same source yields equal decoder states (or the same error) -- and every later observable is a function of that state. The hypothesis that tables keep their alphabet bound is an invariant of all model operations (not yet stated as a separate theorem). Whether the Rust reset really assigns every field is what each run checks by execution: 1-3 earlier frames (completed, abandoned after k blocks, truncated, corrupted, dictionary frames, the probe\'s own frame) followed by probes whose outcome depends on leaked state (suffix frames, frames with an inner block removed, RLE-then-repeat table frames, dictionary frames without their dictionary), on one decoder and on a fresh one, through implementation and extracted model.',
+   note=MODEL_NOTE, design='8 C07')
+CHECKS['C10'] = dict(
+   technique='Coq proof of exact consumption (header reader, block loop) on the decoder model; truncation at every cut point, multi-frame and trailing-data correspondence with oracle',
+   text='Axiom-free theorems (coq/props/C10.v): the frame-header reader consumes exactly the bytes of the fields the descriptor announces (5..18) and the block loop\'s byte counter equals the bytes taken from the source, for every input. Not yet theorems: that a strict prefix of a valid frame always ends in an error (partial) and the multi-frame loop. Each run truncates frames at every cut point (short frames) and at all structural boundaries +-1 (longer ones) and drives them four ways; appends trailing bytes; concatenates frames with skippable frames into exact, roomy and undersized targets, with garbage, truncated skippable frames and cut tails -- through implementation and extracted model, with the oracle "prefix => error, never finished, delivered bytes are a prefix; decode_all returns exactly the concatenation or an error and leaves the vector unchanged".',
+   note=MODEL_NOTE, design='8 C10')
+CHECKS['C12'] = dict(
+   technique='Coq proof by complete sweeps over finite domains (predefined tables vs libzstd, state-range partition for all accuracy logs/probabilities, spreading permutation) over generated constants and the FSE decoder model; correspondence and independent RFC oracle for arbitrary distributions',
+   text='Axiom-free theorems (coq/props/C12.v): the decoder\'s predefined LL/ML/OF tables, built by the model from the default distributions that the translator reads out of the source on this run, equal libzstd\'s published default tables (c2v.py regenerates those from the C source), and both copies of the distributions equal libzstd\'s; for every accuracy log 5..9 and every probability the state ranges of a symbol tile the state space and stay inside the table; the spreading step is a permutation. Not yet theorems (partial): the table for ALL distributions equals the specification\'s, the compressor\'s normalisation, the stream round trip -- these are checked on every run against an independent Python transcription of RFC 8878 4.1: decoding tables for random/boundary/malformed descriptions (implementation = extracted model = oracle), the compressor\'s description writer (parses back), its normalisation of histograms with production parameters (valid distribution, states agree with the decoding table), and the crate\'s round-trip helper.',
+   note=MODEL_NOTE, design='8 C12')
+CHECKS['C13'] = dict(
+   technique='Coq proof by complete sweeps over all alphabet sizes 2..256 (shape validity, encoder/decoder code agreement) plus rejection lemmas, over models of the Huffman encoder shape and the decoder table builder; correspondence and independent RFC oracle',
+   text='Axiom-free theorems (coq/props/C13.v): for every number of distinct symbols 2..256 the compressor\'s weight multiset is a complete prefix code of depth <= min(11, log2 n + 2); for every such size, with symbols ranked increasingly, decreasingly and (below 100) with unused symbols interleaved, the decoder\'s table built from the written weights has exactly the compressor\'s code lengths, is complete and maps every table index to the symbol whose code is its prefix; weights above 11 are rejected and only complete codes of depth <= 11 are accepted. Not yet theorems (partial): bit-level literal round trip in 1/4 streams, the <128-byte bound of FSE-compressed descriptions, the canonical table for every valid weight list. Each run compares weight shapes for all sizes (implementation vs model inside Coq), decoder tables for exhaustive small and random direct descriptions and for FSE-compressed descriptions written by the compressor (implementation = extracted model = independent RFC transcription), and literal round trips.',
+   note=MODEL_NOTE, design='8 C13')
+
 NOT_YET = {}
 
 def main():
